@@ -383,6 +383,12 @@ func (rl *respDeserializer) peekBulkLine(length int) (line respBulkString, valid
 		panic("already determined the next line")
 	}
 
+	if length < 0 || length > len(rl.content)-rl.pos-2 {
+		// more than the content holds (also guards the arithmetic below against overflow)
+		valid = false
+		return
+	}
+
 	rl.nextPos = rl.pos + length + 2
 	if rl.nextPos > len(rl.content) {
 		valid = false
@@ -427,7 +433,16 @@ func (rl *respDeserializer) getDouble(line string) (value respDouble, valid bool
 	return respDouble(value64), true
 }
 
+// an aggregate cannot have more elements than there are bytes left (every element takes at
+// least three); a larger declared count is incomplete or absurd input, never an allocation size
+func (rl *respDeserializer) plausibleCount(count int) bool {
+	return count >= 0 && count <= len(rl.content)-rl.pos
+}
+
 func (rl *respDeserializer) getNextArray(count int) (value respArray, valid bool) {
+	if !rl.plausibleCount(count) {
+		return
+	}
 	a := make(respArray, 0, count)
 
 	for i := 0; i < count; i++ {
@@ -442,6 +457,9 @@ func (rl *respDeserializer) getNextArray(count int) (value respArray, valid bool
 }
 
 func (rl *respDeserializer) getNextMap(pairs int) (value respMap, valid bool) {
+	if !rl.plausibleCount(pairs) {
+		return
+	}
 	m := newRespMapSized(pairs)
 
 	for i := 0; i < pairs; i++ {
@@ -461,6 +479,9 @@ func (rl *respDeserializer) getNextMap(pairs int) (value respMap, valid bool) {
 }
 
 func (rl *respDeserializer) getNextAttributeMap(pairs int) (value respAttributeMap, valid bool) {
+	if !rl.plausibleCount(pairs) {
+		return
+	}
 	m := make(respAttributeMap, pairs)
 
 	for i := 0; i < pairs; i++ {
@@ -480,6 +501,9 @@ func (rl *respDeserializer) getNextAttributeMap(pairs int) (value respAttributeM
 }
 
 func (rl *respDeserializer) getNextSet(count int) (value respSet, valid bool) {
+	if !rl.plausibleCount(count) {
+		return
+	}
 	s := make(respSet, count)
 
 	for i := 0; i < count; i++ {
@@ -495,6 +519,9 @@ func (rl *respDeserializer) getNextSet(count int) (value respSet, valid bool) {
 }
 
 func (rl *respDeserializer) getNextPush(count int) (value respPush, valid bool) {
+	if !rl.plausibleCount(count) {
+		return
+	}
 	a := make([]respValue, 0, count)
 	p := respPush{}
 
